@@ -222,6 +222,9 @@ func profileFor(prop string) Profile {
 	switch prop {
 	case "C01":
 		p.Faults, p.LostReply, p.Crash, p.Relist, p.Reload, p.AdminRelease, p.Stall = true, true, true, true, true, true, true
+		// a dropped range coming back: a record lost while its pod runs is adopted again by the pod-IP sync pass, and the
+		// adopted record has to protect the running pod like one written by bind (double-bound is judged per allocation)
+		p.Restore = true
 	case "C04":
 		p.Relist, p.AdminRelease, p.Reload, p.LostReply, p.Stall = true, true, true, true, true
 		p.Cloud = 2
@@ -237,7 +240,7 @@ func profileFor(prop string) Profile {
 		p.Stall = true
 		p.Reload, p.Crash = true, true // histories include restarts and reloads: the tables are rebuilt from the store
 		p.Typo = true
-		p.Relist = true                // a dropped watch: the informer re-lists and events arrive late or as tombstones
+		p.Relist = true // a dropped watch: the informer re-lists and events arrive late or as tombstones
 	case "C03":
 		p.Relist, p.AdminRelease = true, true
 		p.Ops = [2]int{15, 50}
@@ -344,11 +347,12 @@ type World struct {
 	poolBodies                     map[string][][]byte // pool name -> bodies of earlier create-or-update requests
 	aheadNum                       int                 // of 8: how often kube-scheduler works on a pod galaxy-ipam's informer has not seen yet (per-run swarm parameter)
 	everDropped                    map[string]bool
-	typoActive                     bool // the configmap holds a text with a mistyped range (refused as a whole by galaxy-ipam)
-	cloudStale                     map[string]bool // provider assignments whose record was dropped by a configuration change (C10)
-	rebuilds                       []int // steps at which galaxy-ipam listed the stored FloatingIPs (tables rebuilt from the store)
-	memVer                         int // configuration version the tables were last known to hold (raised when a reload or a start completes)
-	inForceLB                      int                 // oldest configuration version that can still be in force (C09)
+	adoptedBy                      map[string]string // ip -> uid of the live pod galaxy last wrote a record for (C01 scope of once-dropped IPs)
+	typoActive                     bool              // the configmap holds a text with a mistyped range (refused as a whole by galaxy-ipam)
+	cloudStale                     map[string]bool   // provider assignments whose record was dropped by a configuration change (C10)
+	rebuilds                       []int             // steps at which galaxy-ipam listed the stored FloatingIPs (tables rebuilt from the store)
+	memVer                         int               // configuration version the tables were last known to hold (raised when a reload or a start completes)
+	inForceLB                      int               // oldest configuration version that can still be in force (C09)
 	plan                           *faultPlan
 	planFired                      bool
 	recovering                     bool
@@ -687,6 +691,7 @@ func (w *World) publishConf(cs ConfSet) {
 					w.everDropped = map[string]bool{}
 				}
 				w.everDropped[ip] = true
+				delete(w.adoptedBy, ip)
 				if w.cloud[ip] != "" {
 					// galaxy-ipam drops the record without a provider call: the provider's assignment is no longer tracked
 					if w.cloudStale == nil {
